@@ -29,7 +29,7 @@ var c03Alphabet = []string{
 	"|", "*", "^", "a", "Z", "0", "-", ":", "%", "_",
 }
 
-func emitP2R(w *bufio.Writer, op, pattern string) {
+func c03EmitP2R(w *bufio.Writer, op, pattern string) {
 	ans := guardStr(func() string { return wb(rules.VerifPatternToRegexp(pattern)) })
 	fmt.Fprintf(w, "%s %s = %s ## %q\n", op, wb(pattern), ans, pattern)
 }
@@ -45,7 +45,7 @@ func genC03P2RX(r *rng, n int, w *bufio.Writer) {
 	emit := func(p string) {
 		if !seen[p] {
 			seen[p] = true
-			emitP2R(w, "c03.p2rx", p)
+			c03EmitP2R(w, "c03.p2rx", p)
 		}
 	}
 	emit("")
@@ -69,10 +69,10 @@ func genC03P2RX(r *rng, n int, w *bufio.Writer) {
 	_ = r
 }
 
-// genMaskPattern returns a random mask pattern biased to the boundaries of
+// c03GenMaskPattern returns a random mask pattern biased to the boundaries of
 // patternToRegexp: pipes in every position, metacharacters, `*`, `^`, the
 // `/*` tail, very short patterns.
-func genMaskPattern(r *rng) string {
+func c03GenMaskPattern(r *rng) string {
 	var sb strings.Builder
 	switch r.n(8) {
 	case 0:
@@ -138,8 +138,8 @@ func genC03P2R(r *rng, n int, w *bufio.Writer) {
 				p += pick(r, c03Alphabet)
 			}
 		default:
-			p = genMaskPattern(r)
+			p = c03GenMaskPattern(r)
 		}
-		emitP2R(w, "c03.p2r", p)
+		c03EmitP2R(w, "c03.p2r", p)
 	}
 }
